@@ -33,7 +33,7 @@ instance : KeyOrder Int where
 end Nstd.Avl
 
 namespace Nstd.Avl.G
-open Nstd.Avl (Ret Out insertBefore insertAfter threadIn idxOf)
+open Nstd.Avl (Ret Out insertBefore insertAfter threadIn idxOf ipbOf blockItems)
 open Nstd.Avl.Tree (Landing)
 
 inductive Tree (K : Type) where
@@ -284,8 +284,9 @@ def St.alloc (s : St K) : Nat × St K :=
   match s.free with
   | i :: rest => (i, { s with free := rest })
   | [] =>
-    let b := 4 * s.blocks
-    (b + 3, { s with free := [b + 2, b + 1, b], blocks := s.blocks + 1 })
+    match blockItems (ipbOf s.multi * s.blocks) (ipbOf s.multi) with
+    | i :: rest => (i, { s with free := rest, blocks := s.blocks + 1 })
+    | [] => (0, { s with blocks := s.blocks + 1 })   -- a block of zero items: the translator refuses that
 
 inductive Op (K : Type) where
   | insert (k : K) (v : Int)
